@@ -160,6 +160,20 @@ def r3(ctx):
         leak = [x for x in esc if x in nxt or b.term(x)["k"] == "return"]
         ctx.inst(R, "check_retx:act-on-threshold", not leak, b.term(e[0]).get("s", b.span), "a candidate over the threshold is always aborted, re-handshaken or rewound" if not leak else
                  "a candidate that crossed the retransmit threshold can be skipped without retransmission or abort: lost segments are never resent")
+    # the round counter is re-armed whenever a retransmission is decided - for a handshake segment as for data: otherwise the next
+    # egress round is over the threshold again and the budget is used up in retx_max consecutive rounds
+    zero = [bb for bb, i, s in b.all_stmts() if i != "term" and place_last_field(s["p"]) == T + "egress_since_ack" and s["r"]["k"] == "use" and (op_const(s["r"]["o"]) or {}).get("v") == 0]
+    bud = []
+    for sbb, te, fe, o in guards_on(b, lambda o: o["k"] == "bin" and o["op"] in ("Ge", "Lt")):
+        if "field:" + T + "retx_attempts" in Slicer(ctx.w).atoms(b, o["a"]):
+            bud += te if o["op"] == "Ge" else fe
+    abort_push = [x for x in pushes if bud and b.dominated_by_any(x, edges=bud)]
+    for e in over:
+        esc = b.reachable(e[1], removed_blocks=zero + abort_push, stop=nxt)
+        leak = [x for x in esc if x in nxt or b.term(x)["k"] == "return"]
+        ctx.inst(R, "check_retx:rearms-round-counter", bool(zero) and not leak, b.term(e[0]).get("s", b.span), "egress_since_ack := 0 on every path that retransmits" if zero and not leak else
+                 "a path through check_retx retransmits (handshake segment or rewind) without setting egress_since_ack back to 0: the connection is over the threshold again in the next "
+                 "round and burns one attempt per round - a handshake whose round trip exceeds threshold + retx_max rounds (4 ms of latency) is aborted with TimedOut")
     at = list(b.calls(re.compile(r"^turmoil_net::kernel::tcp::(abort_timed_out|abort_with)$")))
     eh = list(b.calls("turmoil_net::kernel::tcp::emit_handshake"))
     ctx.inst(R, "check_retx:abort-reaches-abort_timed_out", len(at) == 1, b.span, "abort list is drained into abort_timed_out" if at else "abort list is never acted upon")
@@ -529,6 +543,7 @@ def r15(ctx):
 
 
 def run(ctx):
+    C13.r9(ctx)    # a retransmission reaching an orphaned socket is re-ACKed, not reset (the writer must see EOF, not ConnectionReset)
     r15(ctx)
     C13.r10(ctx, R="C06-R14")   # a connection with unacknowledged data / FIN never leaves the states that are retransmitted
     r13(ctx)
